@@ -1,6 +1,6 @@
 PID = "C17"
 WORKER = "w_c17"
-HEADER = "From Coq Require Import List ZArith QArith Qcanon.\nFrom Dimod Require Import Base.Util Model.Poly Model.Comb Gen.Gen_Gates Gen.Gen_Combinations Gen.Gen_Graph Model.Gates Model.Knap Model.QKnap Gen.Gen_Knap Model.MultCircuit Model.Qap Model.Magic Model.Sat Gen.Gen_Sat Model.ChkC17.\nImport ListNotations."
+HEADER = "From Coq Require Import List ZArith QArith Qcanon.\nFrom Dimod Require Import Base.Util Model.Poly Model.Comb Gen.Gen_Gates Gen.Gen_Combinations Gen.Gen_Graph Model.Gates Model.Knap Model.QKnap Gen.Gen_Knap Model.MultCircuit Model.Qap Gen.Gen_Qap Model.QapGen Model.Magic Gen.Gen_Magic Model.MagicGen Model.Sat Gen.Gen_Sat Model.ChkC17.\nImport ListNotations."
 CHECK_FN = "check"
 N_QUICK = 1200      # wall time: see the stage breakdown in the round-5 report; the worker + Coq evaluation share is ~80 s at 1600
 N_THOROUGH = 30000
@@ -14,8 +14,8 @@ RULE = ("gates (and/or/xor/halfadder/fulladder) with random distinct labels (int
         "maximum_weight_independent_set with repeated edges, partial and repeated node lists, strength / strength_multiplier; "
         "quadratic_knapsack / quadratic_multi_knapsack (translated constructions as the model, all assignments); anti_crossing_clique / _loops (monitored); "
         "random_nae3sat / random_2in4sat / random_kmcsat (n <= 6, planted or not, labels, seeds incl. 0): BQM against the clauses replayed from the seed, all spin assignments; "
-        "magic_square(n <= 4, power 1/2): constraints against Model/Magic.v, check_feasible on magic / Latin / random integer squares; "
-        "quadratic_assignment (n <= 3, symmetric distances with ARBITRARY (asymmetric, directed) flows, list / array input) against Model/Qap.v and the documented cost on every placement; "
+        "magic_square(n <= 4, power 1/2): constraints against Model/Magic.v and against the construction generated from the source (Model/MagicGen.v), check_feasible on magic / Latin / random integer squares; "
+        "quadratic_assignment (n <= 3, symmetric distances with ARBITRARY (asymmetric, directed) flows, list / array input) against Model/Qap.v, against the construction generated from the source and replayed with set_quadratic (Model/QapGen.v), and the documented cost on every placement; "
         "knapsack / bin packing / multi-knapsack CQMs (random_* with seeds and direct constructors) on all assignments of small "
         "instances; random generators (uniform, randint, gnp, gnm, ran_r, doped, power_r, frustrated_loop, chimera_anticluster) over all graph-argument forms, "
         "each case re-examined for 16 further seeds derived from its seed (range / support clauses, offset included); "
@@ -25,6 +25,15 @@ TRUSTED = ["translators/gates_tables.py (fail-closed ast translator: gates.py ->
            "translators/knap_constructions.py (fail-closed ast translator of the CQM construction loops of knapsack, quadratic_knapsack, multi_knapsack, quadratic_multi_knapsack, bin_packing -> Gen/Gen_Knap.v)",
            "translators/sat_clause_terms.py (fail-closed shape lock of _kmcsat_interactions / random_kmcsat and its wrappers -> Gen/Gen_Sat.v)",
            "translators/shape_locks.py (fail-closed shape lock of quadratic_assignment, magic_square, multiplication_circuit: the hand-written mirrors Qap.v / Magic.v / MultCircuit.v are tied coefficient-wise and locked to the source text)",
+           "translators/qap_construction.py (fail-closed ast translator: quadratic_assignment -> Gen/Gen_Qap.v: variable creation order, the guard and bias expression of the product(range(n), repeat=4) loop, "
+           "the list of set_quadratic calls in loop order, the add_discrete rows and the add_constraint columns; Model/QapGen.v replays the calls with Model/Poly.v's set_quadratic and is "
+           "compared coefficient-wise with the implementation in every quadratic_assignment case; what stays trusted: that set_quadratic overwrites (property C01's model) and that add_discrete(cells) means sum(cells) == 1)",
+           "translators/magic_construction.py (fail-closed ast translator: magic_square -> Gen/Gen_Magic.v: the row / column / diagonal / antidiagonal lines with their exponent in source order, the condition, "
+           "the degree-2 terms, sense and right-hand side of the uniqueness constraint; Model/MagicGen.v is compared with the implementation in every magic_square case; trusted: label var_x_y <-> index x*n+y, "
+           "quicksum(v ** e) - sum == 0 read as linear terms (e = 1) or squares (e = 2))",
+           "Model/RandStruct.v (frustrated_loop accumulation / R cut-off, doped, gnm_random_bqm, gnp_random_bqm, chimera_anticluster with every PRNG draw an oracle parameter): HAND WRITTEN from the source, "
+           "cross-checked once against the implementation by evaluating the model next to dimod (tile / inter-tile edges, gnm selection, loop couplings); per case only the chimera part is tied in Coq (CChimera: tile_edges ++ intertile_edges are exactly the interactions chimera_anticluster(m, n, t) built, intra-tile +-1, inter-tile +-multiplier; "
+           "cases without subgraph=); the frustrated_loop / doped / gnm / gnp parts depend on unobservable draws and their per-case tie remains the worker's monitor (w_c17_py.py)",
            "translators/combinations_rule.py (fail-closed ast translator: the coefficient rule of combinations -> Gen/Gen_Combinations.v)",
            "model: coq/theories/Model/Gates.v, Comb.v (combinations_energy), Knap.v (knapsack / multi-knapsack / bin packing), "
            "MultCircuit.v (wiring of multiplication_circuit), ChkC17.v (hand written, tied by this correspondence)",
@@ -34,7 +43,7 @@ TRUSTED = ["translators/gates_tables.py (fail-closed ast translator: gates.py ->
            "knapsack / bin packing / multi-knapsack: coefficients, feasibility (CQM.check_feasible) and objective are decided in Coq "
            "against Model/Knap.v on all assignments of instances with <= 8 variables and on a seeded sample of 256-384 assignments up "
            "to 16 variables; ranges, labels, seeds and all assignments up to 12 variables additionally in the worker (w_c17_py.py)",
-           "random generators: decided in the worker (harness/w_c17_py.py), monitored only (no theorem)",
+           "random generators: the per-case decisions are made in the worker (harness/w_c17_py.py); the theorems C17_fl_* / C17_doped_* / C17_gnm_* / C17_gnp_* / C17_anti_* / C17_tile_* are about Model/RandStruct.v",
            "float arithmetic of the implementation is exact on the generated dyadic data (not verified)"]
 ASSUMPTIONS = ["the coefficients a BQM reports define its energy, and BQM.energies / CQM.check_feasible evaluate them (property C01/C08)",
                "labels passed to a generator are pairwise distinct",
@@ -43,14 +52,18 @@ PARTIAL = ["quadratic_assignment: the documented cost holds for ANY flow matrix 
            "distance matrix (C17_qap_cost_symmetric, no hypothesis on the flows) and, for n >= 2, for all flows and placements ONLY then "
            "(C17_qap_exact_iff_symmetric; already symmetric flows fail with an asymmetric distance: C17_qap_symmetric_flow_asymmetric_distance_refuted, "
            "C17_qap_asymmetric_refuted); asymmetric DISTANCE matrices are kept out of the random stream (QAP_ASYMMETRIC in w_c17.py); "
-           "the mirror Model/Qap.v is hand written, tied coefficient-wise and shape-locked to the source (no construction translator)",
-           "magic_square: constraints tied coefficient-wise and on integer assignments, mirror shape-locked; only necessity of the uniqueness "
+           "the construction is now GENERATED from the source (translators/qap_construction.py -> Gen/Gen_Qap.v, replayed by Model/QapGen.v): for every n and all matrices the replayed objective has the energy of the "
+           "mirror Model/Qap.v on every assignment (C17_qapg_objective_is_source; last write of an unordered pair = its later visit: C17_qapg_coefficient_is_source, C17_qapg_writes_cells), the constraints are the mirror's "
+           "(C17_qapg_constraints_is_source), and the documented cost is re-proved over the generated construction (C17_qapg_cost_symmetric, C17_qapg_feasible, C17_qapg_asymmetric_refuted); still trusted: the meaning of "
+           "set_quadratic (overwrite) and add_discrete (one-hot)",
+           "magic_square: constraints tied coefficient-wise and on integer assignments; the construction is GENERATED from the source (translators/magic_construction.py -> Gen/Gen_Magic.v, Model/MagicGen.v) "
+           "and proved equal, as a list of constraints, to the mirror Model/Magic.v for every n and power in {1, 2} (C17_magicg_constraints_is_source; (n^4-n^2)/2 exact: C17_magicg_uniq_rhs_is_source); only necessity of the uniqueness "
            "constraint is a theorem (C17_magic_uniqueness_necessary); it is not sufficient (C17_magic_uniqueness_not_sufficient_refuted)",
            "multiplication_circuit: theorem for all n, m >= 2 on the hand-written wiring mirror (Model/MultCircuit.v), tied coefficient-wise "
            "up to 6x6 and shape-locked; no translator emits the wiring itself",
            "satisfiability generators: only the draws of numpy's Generator (which k variables, which sign bits) are an oracle, replayed from the "
            "seed in the worker; how a draw becomes terms is translated from the source and proved",
-           "random generators (uniform, randint, gnp/gnm_random_bqm, ran_r, power_r, doped) and decorators.graph_argument: MONITORED only - for "
+           "random generators (uniform, randint, gnp/gnm_random_bqm, ran_r, power_r, doped) and decorators.graph_argument: per case MONITORED only (structure theorems for gnp / gnm / doped on the oracle model: see the frustrated_loop paragraph) - for "
            "every graph-argument form: biases in the declared range/set, interactions exactly on the declared edges, declared nodes present, "
            "requested vartype, same seed (incl. 0) => equal and independent models; the range / support clauses are re-examined for 16 further "
            "seeds per case so that a draw leaving the range for one seed in k is met in every case; nothing more can be stated because the values are whatever "
@@ -65,7 +78,15 @@ PARTIAL = ["quadratic_assignment: the documented cost holds for ANY flow matrix 
            "simple cycle with exactly one +1 coupling, guards, seed; both over 1+16 / 1+8 seeds per case. Theorems for frustrated_loop on the "
            "code-shaped loop contribution with the PRNG's choices as parameters (Model/FrustLoop.v): closed walks multiply to +1, an odd number of "
            "anti-ferromagnetic couplers costs >= -(L-2), the planted all-(+1) state attains it on every loop and minimises every sum of loops "
-           "(C17_fcl_*); the accumulation over loops / the R cut-off and chimera_anticluster, gnp/gnm_random_bqm, doped have no theorem",
+           "(C17_fcl_*). With every PRNG draw an oracle parameter (Model/RandStruct.v, hand written, not tied per case) for ANY draws: frustrated_loop - the couplings are the sum of exactly the good loops, at most num_cycles "
+           "of them (C17_fl_accumulates), an edge leaves the walk iff it reached R and nothing outside the graph is coupled (C17_fl_alive_iff), |J| < R + 1 in general and |J| <= R for integer R (C17_fl_cutoff_bound, "
+           "C17_fl_cutoff_integer_R), |J| <= R is FALSE for fractional R (C17_fl_cutoff_fractional_R_refuted: the code never rejects a loop, it only retires edges that reached R), plant_solution=False is deterministic "
+           "(C17_fl_noplant_is_plant0); doped - interactions exactly the edges, coupling i = draw i in {-1,+1}, zero linear / offset for distinct edges (C17_doped_structure, C17_doped_couplings_pm1), repeated edges and isolated "
+           "nodes refuted (C17_doped_repeated_edge_refuted, C17_doped_keeps_all_nodes_refuted); gnm_random_bqm - exactly num_interactions distinct pairs u < v < n with the generated biases (C17_gnm_structure, C17_gnm_pairs_distinct, "
+           "C17_gnm_biases) and the selection does not depend on the draws (C17_gnm_draws_irrelevant, C17_gnm_selection_is_prefix); gnp_random_bqm - a pair is an interaction iff its draw succeeded, no pair twice "
+           "(C17_gnp_edges_spec, C17_gnp_count, C17_gnp_pairs_distinct); chimera_anticluster - intra-tile +-1, inter-tile +-multiplier, zero linear / offset, the two edge families disjoint (C17_anti_qdata_biases, "
+           "C17_tile_edges_intra, C17_intertile_edges_shape, C17_anti_intra_inter_disjoint). Not proved: that the chimera edge lists are exactly the Chimera(m,n,t) graph (compared per case in Coq with what the implementation built, and monitored against an independent description in the worker), bias RANGES of gnp/gnm beyond 'the generated "
+           "values are stored unchanged', anything distributional",
            "not covered at all (outside the statement text and anchors): "
            "binary_paint_shop_problem, wireless.mimo / coordinated_multipoint (floating-point channel models, not exact on dyadic data); "
            "integer.binary_encoding belongs to C16 (C16_binary_encoding_facts)"]
